@@ -95,6 +95,7 @@ def run_ftp_job(job):
     if job['decoder'][0] == 'RotatedToricSMWPMDecoder':
         _install_tparity_recorders(trec)
     out = []
+    shared_inner = zoo.make_decoder(job['decoder']) if job.get('share_decoder') else None
     try:
         for run in job['runs']:
             cap.msgs.clear()
@@ -102,7 +103,7 @@ def run_ftp_job(job):
             if job['decoder'][0] == 'RotatedToricSMWPMDecoder':
                 from qecsim.models.rotatedtoric import RotatedToricSMWPMDecoder as D
                 D._verif_rec = trec
-            dec = Recording(zoo.make_decoder(job['decoder']))
+            dec = Recording(shared_inner if shared_inner is not None else zoo.make_decoder(job['decoder']))
             T, p, q = run['T'], run['p'], run['q']
             if 'scripted' in run:
                 errs = [np.array([int(c) for c in s]) for s in run['scripted']['errors']]
@@ -170,7 +171,7 @@ def run(ctx):
                 'square/non-square/minimal; T in 1..%d; p in %r x q in %r (every corner: p=0 with q>0, q=0, q=1, q '
                 'defaulted); eta given or derived from the context model (infinite bias => the model generates Y-only '
                 'errors); scripted flip sequences (single flip at t=T-1, the same flip at every t, flips at t=0 and '
-                't=T-1). nontrivial = T >= 2 with at least one flip and one non-zero syndrome row' % (Tmax, PS, QS))
+                't=T-1); one decoder object reused over histories of 2-4 runs with different context models (bias re-derived each time). nontrivial = T >= 2 with at least one flip and one non-zero syndrome row' % (Tmax, PS, QS))
     ctx.props_obligations()
     jobs, meta = [], {}
     codes = {}
@@ -238,6 +239,23 @@ def run(ctx):
                                        'scripted': {'errors': [bitstr(e) for e in errs], 'flips': [bitstr(x) for x in flips]},
                                        'kind': kind}]})
                 meta[jid] = 'scripted/' + kind
+            # ---- one decoder object reused over a history of runs with different context models / T / p / q ----
+            for rep in range(ctx.pick(10, 40) if not big else ctx.pick(3, 10)):
+                eta = rng.choice([None, None, None, 10])
+                ds = (dname, (eta,)) if fam == 'rotatedplanar' else (dname, (rng.choice([False, True]), eta))
+                probe = zoo.make_decoder(ds)
+                runs = []
+                for _ in range(rng.randint(2, 4)):
+                    ems = rng.choice(EM_SPECS)
+                    try:
+                        probe._bias(zoo.make_error_model(ems))
+                    except ValueError:
+                        ems = ('BitPhaseFlipErrorModel', ())
+                    runs.append({'T': rng.randint(1, min(Tmax, 4)), 'p': rng.choice([0.05, 0.1, 0.3]),
+                                 'q': rng.choice([None, 0.0, 0.1, 0.2]), 'em': ems, 'seed': rng.getrandbits(32)})
+                jid = len(jobs)
+                jobs.append({'id': jid, 'code': cs, 'decoder': ds, 'share_decoder': True, 'runs': runs})
+                meta[jid] = 'shared-decoder-history'
     # ---- periodic time axis of the matching-graph distance (metamorphic: invariant under a time shift mod T) ----
     from qecsim.models.rotatedplanar import RotatedPlanarSMWPMDecoder as RP
     from qecsim.models.rotatedtoric import RotatedToricSMWPMDecoder as RTD
@@ -268,19 +286,19 @@ def run(ctx):
     # ---- model requests ------------------------------------------------------------------------------
     req = []
     look = {}
-    for job, res in zip(jobs, results):
+    flat = [(job, i, res['results'][i]) for job, res in zip(jobs, results) for i in range(len(job['runs']))]
+    for job, ri, r in flat:
         cs = job['code']
         code, n, cname, _ = codes[cs]
-        r = res['results'][0]
         if r.get('recovery') is not None and r.get('rows'):
-            look[(job['id'], 'rok')] = len(req)
+            look[(job['id'], ri, 'rok')] = len(req)
             req.append('rokftp %s %d %s %s' % (cname, n, r['recovery'] or '-', ','.join(r['rows'])))
         tp = r.get('tparity') or {}
         if 'sym' in tp and 'clu' in tp:
             itp = job['decoder'][1][0]
             mea = tp.get('mea', (0, 0))
-            look[(job['id'], 'tpd')] = len(req)
-            req.append('tpd %d %d %d %d %d %d %d %d %d' % (1 if itp else 0, job['runs'][0]['T'],
+            look[(job['id'], ri, 'tpd')] = len(req)
+            req.append('tpd %d %d %d %d %d %d %d %d %d' % (1 if itp else 0, job['runs'][ri]['T'],
                                                           1 if r.get('step_flips') else 0,
                                                           tp['sym'][0], tp['sym'][1], tp['clu'][0], tp['clu'][1], mea[0], mea[1]))
     # _tparity on a grid
@@ -298,12 +316,11 @@ def run(ctx):
             ctx.violation('tparity-T1', '_tparity reports a crossing with a single time step', {'T': T, 'a': a, 'b': b})
 
     kern = []
-    for job, res in zip(jobs, results):
+    for job, ri, r in flat:
         cs = job['code']
         code, n, cname, scodes = codes[cs]
         ds = job['decoder']
-        run_ = job['runs'][0]
-        r = res['results'][0]
+        run_ = job['runs'][ri]
         T = run_['T']
         kind = meta[job['id']]
         rep = {'code': [cs[0], list(cs[1])], 'decoder': [ds[0], list(ds[1])], 'T': T, 'p': run_['p'], 'q': run_['q'],
@@ -311,10 +328,13 @@ def run(ctx):
                'scripted': run_.get('scripted'), 'step_errors': [zoo.bsf_to_letters([int(c) for c in e]) for e in r.get('step_errors', [])],
                'step_flips': r.get('step_flips'), 'rows': r.get('rows'), 'outcome': r['outcome'],
                'recovery': r.get('recovery'), 'dr_success': r.get('dr_success'), 'dr_cv': r.get('dr_cv')}
+        if job.get('share_decoder'):
+            rep['history'] = {'share_decoder': True, 'index': ri,
+                              'runs': [dict(x, em=list(x['em'])) for x in job['runs'][:ri + 1]]}
         flips_any = any('1' in f for f in (r.get('step_flips') or []))
         rows_any = any('1' in f for f in (r.get('rows') or []))
         pq = 'p=%r,q=%r' % (run_['p'], run_['q'])
-        ctx.count((zoo.code_name(cs), zoo.dec_name(ds), T, pq, run_.get('seed'), json.dumps(run_.get('scripted'))),
+        ctx.count((zoo.code_name(cs), zoo.dec_name(ds), T, pq, run_.get('seed'), json.dumps(run_.get('scripted')), job['id'] if job.get('share_decoder') else None),
                   T >= 2 and flips_any and rows_any, '%s/%s' % (ds[0], kind),
                   {'code': cname, 'decoder': zoo.dec_name(ds), 'T': T, 'p': run_['p'], 'q': run_['q'], 'rows': r.get('rows'),
                    'recovery': r.get('recovery'), 'custom_values': r.get('dr_cv')} if (T == 3 and flips_any and rows_any and n <= 16) else None)
@@ -332,7 +352,7 @@ def run(ctx):
             ctx.violation('shape', 'decode_ftp returned no 1-d recovery (dtype %s)' % r.get('dtype'), rep)
             continue
         # verified checker: syndrome(recovery) = XOR of all rows
-        v = out[look[(job['id'], 'rok')]]
+        v = out[look[(job['id'], ri, 'rok')]]
         rec = r['recovery']
         rows = np.array([[int(c) for c in row] for row in r['rows']])
         xr = np.bitwise_xor.reduce(rows, axis=0)
@@ -368,16 +388,16 @@ def run(ctx):
                     ctx.violation('tparity-itp', 'itp=True but a time-like failure was declared', rep)
                 if r['custom_values'] != cv or (su is False and r['success'] is not False):
                     ctx.violation('tparity-passthrough', 'run data does not carry the decoder\'s verdict', rep)
-            if (job['id'], 'tpd') in look:
-                m_ = out[look[(job['id'], 'tpd')]]
+            if (job['id'], ri, 'tpd') in look:
+                m_ = out[look[(job['id'], ri, 'tpd')]]
                 impl = ('_' if su is None else ('1' if su else '0')) + ' ' + (''.join(map(str, cv)) if cv is not None else '?')
-                ctx.cmp('time-parity decision', req[look[(job['id'], 'tpd')]], impl, m_)
+                ctx.cmp('time-parity decision', req[look[(job['id'], ri, 'tpd')]], impl, m_)
         else:
             if r.get('dr') or r['custom_values'] is not None:
                 pass  # rotated planar returns a bare recovery; nothing promised about custom values
         if len(kern) < 40 and n <= 16 and T >= 2 and rows_any and v == '1' and job['id'] % 5 == 0:
             kern.append((cs, rec, r['rows']))
-    ctx.extra['runs'] = len(jobs)
+    ctx.extra['runs'] = len(flat)
     ctx.notes.append('contexts whose derived bias is zero (BitFlip/PhaseFlip with eta=None) raise the documented ValueError '
                      'and are outside the stated noise domain: redrawn, counted in input_distribution')
     ctx.notes.append('Blossom V backend absent: NetworkX matching only')
@@ -412,7 +432,11 @@ def replay(path):
         run_['em'] = (em[0], tuple(tuple(x) if isinstance(x, list) else x for x in em[1]))
         run_['seed'] = r['seed']
     zoo._init_worker()
-    res = run_ftp_job({'id': 0, 'code': cs, 'decoder': ds, 'runs': [run_]})['results'][0]
+    if r.get('history'):
+        runs = [dict(x, em=(x['em'][0], tuple(tuple(y) if isinstance(y, list) else y for y in x['em'][1]))) for x in r['history']['runs']]
+        res = run_ftp_job({'id': 0, 'code': cs, 'decoder': ds, 'share_decoder': True, 'runs': runs})['results'][-1]
+    else:
+        res = run_ftp_job({'id': 0, 'code': cs, 'decoder': ds, 'runs': [run_]})['results'][0]
     print('outcome now:', {k: res.get(k) for k in ('outcome', 'rows', 'recovery', 'dr_success', 'dr_cv', 'warnings')})
     code = zoo.make_code(cs)
     bad = 1
